@@ -2532,8 +2532,17 @@ class Parameters:
         # would need to handle the params() cache as well
         # (which is tricky but important for startup speed).
         cls = self_.cls
+        previous = cls.__dict__.get(param_name, Undefined)
         type.__setattr__(cls, param_name, param_obj)
-        ParameterizedMetaclass._initialize_parameter(cls, param_name, param_obj)
+        try:
+            ParameterizedMetaclass._initialize_parameter(cls, param_name, param_obj)
+        except Exception:
+            # do not leave the class with a Parameter that failed validation
+            if previous is Undefined:
+                type.__delattr__(cls, param_name)
+            else:
+                type.__setattr__(cls, param_name, previous)
+            raise
         # delete cached params() of this class and of its subclasses,
         # which inherit the new Parameter
         for subcls in descendents(cls):
@@ -4556,15 +4565,10 @@ class ParameterizedMetaclass(type):
                     subcls._param__private.params.clear()
             mcs.__dict__[attribute_name].__set__(None,value)
 
+        elif isinstance(value,Parameter):
+            mcs.param.add_parameter(attribute_name,value)
         else:
             type.__setattr__(mcs,attribute_name,value)
-
-            if isinstance(value,Parameter):
-                # same as add_parameter: name the Parameter, let it inherit
-                # and drop the cached namespaces that would now miss it
-                mcs._initialize_parameter(attribute_name,value)
-                for subcls in descendents(mcs):
-                    subcls._param__private.params.clear()
 
     def __param_inheritance(mcs, param_name, param):
         """
